@@ -183,6 +183,30 @@ pub fn record(rng: &mut Rng, kind: &str, i: usize, quick: bool) -> Fields {
     f
 }
 
+/// A repository state whose `delta_state` has exactly `n` entries.
+pub fn state_with_map(rng: &mut Rng, n: usize) -> Fields {
+    let mut f = record(rng, "state", 3, true);
+    let mut keys = std::collections::BTreeSet::new();
+    while keys.len() < n {
+        keys.insert(if rng.chance(1, 50) { u64_val(rng) } else { rng.below(4 * n as u64 + 16) });
+    }
+    let mut keys: Vec<u64> = keys.into_iter().collect();
+    rng.shuffle(&mut keys);
+    let items: Vec<String> = keys.iter().map(|k| {
+        // cheap but distinct hashes
+        let mut h = [0u8; 32];
+        h[..8].copy_from_slice(&k.to_be_bytes());
+        h[31] = rng.next() as u8;
+        format!("{}:{}", k, hex(&h))
+    }).collect();
+    f.set("delta_state", if items.is_empty() { ".".into() } else { items.join(",") });
+    f
+}
+
+/// Map sizes around every constant of the map codec (the pre-allocation cap 1024, the former
+/// cap 65536) and a few thousand.
+pub const MAP_SIZES: [usize; 12] = [1023, 1024, 1025, 1026, 2000, 2047, 2048, 2049, 5000, 65535, 65536, 65537];
+
 pub fn trail(rng: &mut Rng) -> Vec<u8> {
     match rng.below(4) {
         0 => Vec::new(),
